@@ -203,6 +203,26 @@ class GophermapDesc(Position):
         return [(v, b"/g") for v in ("http", "https", "wap")] + [(v, b"/g2") for v in ("http", "wap")]
 
 
+class ItemTypeChar(Position):
+    """The item-type character is content too: the first character of a gophermap line, the character after Type= in a
+    link file.  Whatever it is, it must not change the page's markup (compared with an unknown type that is inert)."""
+    name = "item-type-character"
+
+    def build(self, t, p):
+        typ = p[0] if p != INERT and not p[0].isalnum() and not p[0].isspace() and p[0] not in "-+" else "?"
+        rest = p[1:] if typ != "?" else ""
+        t.file("ty/gophermap", "info\n" + typ + "Typed" + "\t/ty/x.txt\n" + typ + "Typed remote\t/s\thost.example.org\t70\n"
+               + typ + rest.replace("\t", " ") + "\t/ty/x.txt\n0Plain\t/ty/x.txt\n")
+        t.file("ty/x.txt", "x\n")
+        t.file("tl/real.txt", "x\n")
+        t.file("tl/.Links", "Name=Typed\nType=" + typ + rest + "\nPath=/typed\nHost=+\nPort=+\n\n"
+               "Name=Typed remote\nType=" + typ + "\nPath=/typed\nHost=remote.example\nPort=70\n\n"
+               "Path=./real.txt\nType=" + typ + "\n")
+
+    def requests(self, p):
+        return [(v, s) for s in (b"/ty", b"/tl") for v in ("http", "https", "wap")]
+
+
 class LinkFile(Position):
     name = "link-file-name-and-path"
 
@@ -478,7 +498,7 @@ def main() -> int:
     quick = chk.tier == "quick"
     with Scratch("c13") as sc:
         positions: typing.List[Position] = [ErrorPageSelector(), FileName(), DirName(), HtmlTitle(), MailSubject(sc.path),
-                                            Abstract(), GophermapDesc(), LinkFile(), UrlRedirect(), TextToWml(), SearchString(), ScriptOutputInWml(),
+                                            Abstract(), GophermapDesc(), ItemTypeChar(), LinkFile(), UrlRedirect(), TextToWml(), SearchString(), ScriptOutputInWml(),
                                             RequestHeaders()]
         rng = chk.rng
         for i, pos in enumerate(positions):
